@@ -257,6 +257,8 @@ struct Pre {
     cv2edge: bool,
     /// a dynamic macro is being recorded
     drec: bool,
+    /// layout.extra_waiting.len(): tap-holds / chords still deciding next to (or after) `waiting` (concurrent-tap-hold)
+    xw: usize,
 }
 
 fn pre_of(sim: &Sim, prev_cv2a: bool) -> Pre {
@@ -276,14 +278,15 @@ fn pre_of(sim: &Sim, prev_cv2a: bool) -> Pre {
         cv2a,
         cv2edge: l.chords_v2.is_some() && cv2a && !prev_cv2a,
         drec: sim.k.dynamic_macro_record_state.is_some(),
+        xw: l.extra_waiting.len(),
     }
 }
 
 fn pre_json(p: &Pre) -> Value {
-    json!({"osp": p.osp, "ost": p.ost, "nosk": p.nosk, "kdiff": p.kdiff, "cv2edge": p.cv2edge, "drec": p.drec})
+    json!({"osp": p.osp, "ost": p.ost, "nosk": p.nosk, "kdiff": p.kdiff, "cv2edge": p.cv2edge, "drec": p.drec, "xw": p.xw})
 }
 
-const GUARDS: [&str; 6] = ["pause", "os0", "kdiff", "cv2", "drec", "long"];
+const GUARDS: [&str; 7] = ["pause", "os0", "kdiff", "cv2", "drec", "long", "xw"];
 /// Which recorded finding (index into GUARDS) covers this may-block decision, if any.
 fn guard_of(p: &Pre, ahead: usize, long_gap: usize) -> Option<usize> {
     if p.osp > 0 {
@@ -298,6 +301,8 @@ fn guard_of(p: &Pre, ahead: usize, long_gap: usize) -> Option<usize> {
         Some(4)
     } else if ahead > long_gap {
         Some(5)
+    } else if p.xw > 0 {
+        Some(6)
     } else {
         None
     }
@@ -431,7 +436,7 @@ fn cmd_paired_inner(args: &[String]) -> Result<(), String> {
                 // pending; one-shot end pending with timeout 0; a blocked stretch longer than `long_gap` ticks);
                 // `fired` counts the decisions changed by each guard.
                 let long_gap = c["long_gap"].as_u64().unwrap_or(9000) as usize;
-                            let run_block = |guard: bool, fired: &mut [u64; 6]| -> Vec<Value> {
+                            let run_block = |guard: bool, fired: &mut [u64; 7]| -> Vec<Value> {
                     let mut lb = Lane::new();
                     guarded(&mut lb, &mut |lane: &mut Lane| {
                         let mut sim = Sim::new(&cfg, &files)?;
@@ -474,9 +479,9 @@ fn cmd_paired_inner(args: &[String]) -> Result<(), String> {
                     });
                     lb.take()
                 };
-                let mut none = [0u64; 6];
+                let mut none = [0u64; 7];
                 let lane_b = run_block(false, &mut none);
-                let mut fired = [0u64; 6];
+                let mut fired = [0u64; 7];
                 let lane_g = run_block(true, &mut fired);
                 let lane_a = la.take();
                 let mut guards = serde_json::Map::new();
